@@ -22,8 +22,10 @@ import (
 	"io"
 	"os"
 	"path/filepath"
+	"sort"
 	"strconv"
 	"strings"
+	"time"
 
 	"github.com/mgtv-tech/redis-GunYu/config"
 	usync "github.com/mgtv-tech/redis-GunYu/pkg/sync"
@@ -203,7 +205,11 @@ func c10Judge(rep *mc.Reporter, scn c10Scn, ro *RedisOutput, layer string, data 
 			keys = append(keys, args[k])
 		}
 		if mirrorAgrees {
-			return "C10:" + layer + ":" + attribute(db, cmd, keys)
+			what := attribute(db, cmd, keys)
+			if what == "parse-path" && cfg.mapped() {
+				what = "db-mapping" // the filter object is right: the parser asked it about another database, or attached another one
+			}
+			return "C10:" + layer + ":" + what
 		}
 		for _, k := range keys {
 			if s := mirror.causeOfKey(k); s != "" {
@@ -236,9 +242,13 @@ func c10Judge(rep *mc.Reporter, scn c10Scn, ro *RedisOutput, layer string, data 
 		if it.sel {
 			// a SELECT comes out only for a database that is not blacklisted (and only when
 			// the target database changes, which is not this property's business)
-			if got && (!o.dbOK(it.db) || x.Cmd != "select" || x.Db != it.db) {
-				violate("a SELECT of a blacklisted database (or a different command) comes out for a source SELECT", "C10:"+layer+":"+attribute(it.db, "", nil),
-					map[string]interface{}{"db": it.db, "output": fmt.Sprintf("%s %v db=%d", x.Cmd, x.Args, x.Db)})
+			if got && (!o.dbOK(it.db) || x.Cmd != "select" || x.Db != cfg.mapDb(it.db)) {
+				what := attribute(it.db, "", nil)
+				if what == "parse-path" && cfg.mapped() {
+					what = "db-mapping"
+				}
+				violate("a SELECT of a blacklisted source database (or of another target database, or a different command) comes out for a source SELECT", "C10:"+layer+":"+what,
+					map[string]interface{}{"source_db": it.db, "statement_says_target_db": cfg.mapDb(it.db), "source_db_blacklisted": !o.dbOK(it.db), "output": fmt.Sprintf("%s %v db=%d", x.Cmd, x.Args, x.Db)})
 			}
 			continue
 		}
@@ -260,8 +270,8 @@ func c10Judge(rep *mc.Reporter, scn c10Scn, ro *RedisOutput, layer string, data 
 			if x.Cmd != strings.ToLower(it.cmd) {
 				bad = "command name " + x.Cmd
 			}
-			if x.Db != it.db {
-				bad = fmt.Sprintf("database %d", x.Db)
+			if x.Db != cfg.mapDb(it.db) {
+				bad = fmt.Sprintf("target database %d instead of %d", x.Db, cfg.mapDb(it.db))
 			}
 		}
 		if got == wantFwd && (!got || (bad == "" && argsEq(gotArgs, wantArgs))) {
@@ -270,7 +280,7 @@ func c10Judge(rep *mc.Reporter, scn c10Scn, ro *RedisOutput, layer string, data 
 		// what does the pure filter, built from the configuration as written, say?
 		m := newC10Env(cfg)
 		m.evalCmd("x", "x", it.db, strings.ToLower(it.cmd), it.args)
-		d := map[string]interface{}{"db": it.db, "cmd": it.cmd, "args": qArgs(it.args), "forwarded": got, "statement_says_forwarded": wantFwd,
+		d := map[string]interface{}{"db": it.db, "source_db_blacklisted": !o.dbOK(it.db), "cmd": it.cmd, "args": qArgs(it.args), "forwarded": got, "statement_says_forwarded": wantFwd,
 			"pure_filter_agrees_with_statement": m.fail == nil}
 		if got {
 			d["forwarded_args"] = qArgs(gotArgs)
@@ -325,7 +335,30 @@ func b2i(b bool) int {
 }
 
 func (c *c10Cfg) key() string {
-	return fmt.Sprintf("%v|%v|%q|%q|%v|%q|%v%v%v|%s", c.SlotWhite, c.SlotBlack, bs2s(c.PfxWhite), bs2s(c.PfxBlack), c.DbBlack, c.CmdBlack, c.KeyFilterSet, c.SlotFilterSet, c.Cluster, c.Via)
+	return fmt.Sprintf("%v|%v|%q|%q|%v|%q|%v%v%v|%s|%d|%v", c.SlotWhite, c.SlotBlack, bs2s(c.PfxWhite), bs2s(c.PfxBlack), c.DbBlack, c.CmdBlack, c.KeyFilterSet, c.SlotFilterSet, c.Cluster, c.Via,
+		c.targetDb(), c.TargetDbMap)
+}
+
+func (c *c10Cfg) targetDb() int {
+	if c.TargetDb == nil {
+		return -1
+	}
+	return *c.TargetDb
+}
+
+func (c *c10Cfg) mapped() bool { return c.targetDb() != -1 || len(c.TargetDbMap) > 0 }
+
+// mapDb: the target database of a source database (docs/sync_configuration: targetDb = the
+// one database of the output everything is synced into, -1 = the input's own database;
+// targetDbMap = per-database mapping; targetDb takes precedence).
+func (c *c10Cfg) mapDb(src int) int {
+	if t := c.targetDb(); t != -1 {
+		return t
+	}
+	if d, ok := c.TargetDbMap[src]; ok {
+		return d
+	}
+	return src
 }
 
 // ---------------------------------------------------------------------------
@@ -385,8 +418,94 @@ func c10RunReal(rep *mc.Reporter, cfg c10Cfg, data []byte, items []c10Item) {
 	}
 	fc := c10FilterConfig(&cfg)
 	cfg.toolView = fc
-	ro := NewRedisOutput(c10OutputConfig(fc, config.RedisConfig{Addresses: []string{"target:6379"}, Type: typ, Otype: typ, Version: "7.2.0"}, -1, nil))
+	ro := NewRedisOutput(c10OutputConfig(fc, config.RedisConfig{Addresses: []string{"target:6379"}, Type: typ, Otype: typ, Version: "7.2.0"}, cfg.targetDb(), cfg.TargetDbMap))
 	c10Judge(rep, c10Scn{Part: "real", What: "config", Cfg: cfg}, ro, "construction", data, items, c10SnapKeys)
+}
+
+// ro10FilterWrongOnKey: does the filter the tool builds from fc misjudge this key name?
+func ro10FilterWrongOnKey(fc config.FilterConfig, cfg *c10Cfg, key string) bool {
+	ro := NewRedisOutput(c10OutputConfig(fc, config.RedisConfig{Addresses: []string{"target:6379"}, Type: config.RedisTypeStandalone, Otype: config.RedisTypeStandalone, Version: "7.2.0"}, -1, nil))
+	return (ro.outFilter.FilterKey(key) || ro.outFilter.FilterSlot(key)) == c10Statement(cfg).keyOK([]byte(key))
+}
+
+// c10RunSnapshot: the same configuration on the SNAPSHOT path - a generated RDB file with
+// keys in databases 0,1,2 goes through the real RedisOutput.Send (rdb loader, rdbReplay,
+// RdbReplay, RedisConn) against the redisd double; judged on where the keys end up.
+// Rule (the same as on the command path): a key arrives iff its SOURCE database is not
+// blacklisted and its name is accepted, and it arrives in the mapped database.
+func c10RunSnapshot(rep *mc.Reporter, cfg c10Cfg) {
+	scn := c10Scn{Part: "snapshot", What: "config", Cfg: cfg}
+	o := c10Statement(&cfg)
+	names := []string{"k", "b", "/redis-gunyu/x", "redis-gunyu-checkpoint"}
+	rs := rdbScenario{Version: 11, Aux: true, Cfg: rdbCfg{Restore: false, BulkLen: 1 << 30, Parallel: 1, DbMode: "id", Resume: false}}
+	for _, db := range []int{0, 1, 2} {
+		for _, n := range names {
+			rs.Keys = append(rs.Keys, rdbKeySpec{DB: db, Key: fmt.Sprintf("%s%d", n, db), Case: "string/short", Enc: ref.RDBEnc{Kind: "raw"}, Idle: -1, Freq: -1})
+		}
+	}
+	fc := c10FilterConfig(&cfg)
+	var out *rdbOutcome
+	var buildErr error
+	msg := bubble(c10T, func() {
+		built, err := rdbBuild(rs, time.Now().UnixMilli())
+		if err != nil {
+			buildErr = err
+			return
+		}
+		out = rdbRun(rs, built, nil, &rdbHooks{NoPark: true, OutputCfg: func(oc RedisOutputConfig) RedisOutputConfig {
+			oc.Filter, oc.TargetDb, oc.TargetDbMap = fc, cfg.targetDb(), cfg.TargetDbMap
+			return oc
+		}})
+	})
+	if msg != "" || buildErr != nil || out == nil || !out.Ended || out.Err != nil || out.LeakCheck != "" {
+		var e error
+		if out != nil {
+			e = out.Err
+		}
+		rep.Exec(scn, nil, mc.Result{Verdict: "machinery", Clause: fmt.Sprintf("snapshot replay did not complete: bubble=%q build=%v err=%v", msg, buildErr, e)})
+		return
+	}
+	where := map[string][]int{}
+	for db := 0; db < 16; db++ {
+		for _, k := range out.Srv.Keys(db) {
+			where[k] = append(where[k], db)
+		}
+	}
+	var bits []byte
+	for _, k := range rs.Keys {
+		got := where[k.Key]
+		want := o.dbOK(k.DB) && o.keyOK([]byte(k.Key))
+		bits = append(bits, "01"[b2i(len(got) > 0)])
+		ok := (!want && len(got) == 0) || (want && len(got) == 1 && got[0] == cfg.mapDb(k.DB))
+		if ok {
+			continue
+		}
+		what := "db-mapping"
+		if (len(got) > 0) != want && o.dbOK(k.DB) && ro10FilterWrongOnKey(fc, &cfg, k.Key) {
+			what = "key" // the filter object itself misjudges the key name; otherwise it is the database handling
+		}
+		rep.Exec(scn, nil, mc.Violation("snapshot key does not arrive where the configured rules say", "C10:snapshot-path:"+what,
+			map[string]interface{}{"key": k.Key, "source_db": k.DB, "source_db_blacklisted": !o.dbOK(k.DB), "key_accepted": o.keyOK([]byte(k.Key)),
+				"statement_says_forwarded": want, "statement_says_target_db": cfg.mapDb(k.DB), "found_in_target_dbs": got}))
+		return
+	}
+	inSnapshot := map[string]bool{}
+	for _, sk := range rs.Keys {
+		inSnapshot[sk.Key] = true
+	}
+	var extra []string
+	for k := range where {
+		if !inSnapshot[k] {
+			extra = append(extra, k)
+		}
+	}
+	if len(extra) > 0 {
+		sort.Strings(extra)
+		rep.Exec(scn, nil, mc.Violation("the target holds a key the snapshot does not contain", "C10:snapshot-path:phantom", map[string]interface{}{"keys": extra}))
+		return
+	}
+	scn.N = len(rs.Keys)
+	rep.Exec(scn, nil, mc.OK(mc.Hash("snapshot", cfg.key(), string(bits)), bytes.IndexByte(bits, '1') >= 0 && bytes.IndexByte(bits, '0') >= 0, len(rs.Keys)))
 }
 
 // ---------------------------------------------------------------------------
@@ -614,6 +733,29 @@ func c10RunToolFamilies(rep *mc.Reporter, mine func() bool, thorough bool) {
 			c10RunReal(rep, c, data, items)
 		})
 	}
+	// dbmap: the database blacklist crossed with the replay's database mapping, on the command
+	// path (parseAofCommand) and on the snapshot path (Send of an RDB file)
+	for _, dbl := range [][]int{nil, {1}, {0}, {1, 2}} {
+		for _, tdb := range []int{-1, 0, 2} {
+			for _, m := range []map[int]int{nil, {0: 1, 1: 2}, {1: 0}, {0: 1, 1: 0}} {
+				for _, pb := range [][]bstr{nil, {"b"}} {
+					c := c10Cfg{DbBlack: dbl, TargetDbMap: m, PfxBlack: pb, Via: "NewRedisOutput"}
+					if tdb != -1 {
+						t := tdb
+						c.TargetDb = &t
+					}
+					if mine() {
+						rep.Scenario()
+						c10RunReal(rep, c, data, items)
+					}
+					if mine() {
+						rep.Scenario()
+						c10RunSnapshot(rep, c)
+					}
+				}
+			}
+		}
+	}
 	// yaml: a sub-grid (every list absent / one entry / several entries) in two spellings
 	yg := g
 	if !thorough {
@@ -653,6 +795,8 @@ func c10ReplayTool(rep *mc.Reporter, s c10Scn) {
 	switch s.Part {
 	case "real":
 		c10RunReal(rep, s.Cfg, data, items)
+	case "snapshot":
+		c10RunSnapshot(rep, s.Cfg)
 	case "yaml":
 		c10RunYaml(rep, s.Cfg, strings.TrimPrefix(s.Cfg.Via, "yaml:"), data, items)
 	case "flags":
